@@ -1709,7 +1709,8 @@ fn emit_calls(seed: u64, tier: Tier, unit: u64, sink: &mut dyn FnMut(Plan) -> bo
             }
             // high orders (the order is a plain usize with no documented limit)
             for _ in 0..2 {
-                let k = r.usize_in(6, 18);
+                // evaluation cost doubles with every order: the highest orders are rarer
+                let k = if r.chance(0.15) { r.usize_in(16, 18) } else { r.usize_in(6, 12) };
                 let mut t = vec![0.0; k];
                 let mut x = 0.0;
                 for _ in 0..r.usize_in(0, 2) {
